@@ -76,7 +76,7 @@ def st_liesel_build():
         im = next((i for i, e in enumerate(t["ev"]) if e["ev"] == "mutate" and e["raised"]), None)
         if ib is not None and im is not None:
             break
-    cfg = ('CONSTANTS NU = 4\n UIn <- UIn1\n Seeded = {4}\n InitName <- Names1\n DetachSeed = TRUE\n'
+    cfg = ('CONSTANTS NU = 4\n UIn <- UIn1\n Seeded = {4}\n InitName <- Names1\n DetachSeed = TRUE\n UserSeeded = {}\n'
            ' MaxModels = 4\n Atoms = {"1.0"}\n')
 
     def c1(tr):
